@@ -1,0 +1,86 @@
+//go:build verif
+
+package ssh
+
+// Hooks for the /verif harness, properties C35/C36/C37 (connection protocol).
+// Add-only: nothing here is compiled without the `verif` build tag.
+
+// VerifC35PacketConn is the exported shape of the unexported packetConn interface:
+// the harness supplies an in-memory, monitored packet pipe and the real mux runs on it.
+type VerifC35PacketConn interface {
+	WritePacket(packet []byte) error
+	ReadPacket() ([]byte, error)
+	Close() error
+}
+
+type verifC35PC struct{ p VerifC35PacketConn }
+
+func (v verifC35PC) writePacket(b []byte) error  { return v.p.WritePacket(b) }
+func (v verifC35PC) readPacket() ([]byte, error) { return v.p.ReadPacket() }
+func (v verifC35PC) Close() error                { return v.p.Close() }
+
+// VerifC35Mux is a real *mux (newMux) running over a harness-supplied packet pipe.
+type VerifC35Mux struct{ m *mux }
+
+// VerifC35NewMux starts the real connection-protocol machine (mux.loop) on p.
+func VerifC35NewMux(p VerifC35PacketConn) *VerifC35Mux { return &VerifC35Mux{m: newMux(verifC35PC{p})} }
+
+func (v *VerifC35Mux) OpenChannel(chanType string, extra []byte) (Channel, <-chan *Request, error) {
+	return v.m.OpenChannel(chanType, extra)
+}
+func (v *VerifC35Mux) SendRequest(name string, wantReply bool, payload []byte) (bool, []byte, error) {
+	return v.m.SendRequest(name, wantReply, payload)
+}
+func (v *VerifC35Mux) IncomingChannels() <-chan NewChannel { return v.m.incomingChannels }
+func (v *VerifC35Mux) IncomingRequests() <-chan *Request   { return v.m.incomingRequests }
+func (v *VerifC35Mux) Wait() error                         { return v.m.Wait() }
+func (v *VerifC35Mux) Close() error                        { return v.m.Close() }
+
+// VerifC35ChannelWindows reports the flow-control state of a Channel returned by the real mux
+// (remote window as seen by the sender; own window / consumed as seen by the receiver).
+func VerifC35ChannelWindows(c Channel) (remoteWin, myWindow, myConsumed, maxRemotePayload uint32, ok bool) {
+	ch, isCh := c.(*channel)
+	if !isCh {
+		return 0, 0, 0, 0, false
+	}
+	ch.remoteWin.L.Lock()
+	remoteWin = ch.remoteWin.win
+	ch.remoteWin.L.Unlock()
+	ch.windowMu.Lock()
+	myWindow, myConsumed = ch.myWindow, ch.myConsumed
+	ch.windowMu.Unlock()
+	return remoteWin, myWindow, myConsumed, ch.maxRemotePayload, true
+}
+
+// VerifC35ChannelIDs returns (localId, remoteId) of a Channel / NewChannel created by the real mux.
+func VerifC35ChannelIDs(c interface{}) (local, remote uint32, ok bool) {
+	ch, isCh := c.(*channel)
+	if !isCh {
+		return 0, 0, false
+	}
+	return ch.localId, ch.remoteId, true
+}
+
+// VerifC35Extended exposes (*channel).Extended: the io.ReadWriter of an arbitrary extended-data code.
+func VerifC35Extended(c Channel, code uint32) interface {
+	Read([]byte) (int, error)
+	Write([]byte) (int, error)
+} {
+	ch, ok := c.(*channel)
+	if !ok {
+		return nil
+	}
+	return ch.Extended(code)
+}
+
+// VerifC35SenderState: the sender-side window and the number of goroutines currently inside window.reserve
+// (read under the window's own lock). Used by the harness only to detect "a writer is blocked with window 0".
+func VerifC35SenderState(c Channel) (win uint32, writeWaiters int, closed bool, ok bool) {
+	ch, isCh := c.(*channel)
+	if !isCh {
+		return 0, 0, false, false
+	}
+	ch.remoteWin.L.Lock()
+	defer ch.remoteWin.L.Unlock()
+	return ch.remoteWin.win, ch.remoteWin.writeWaiters, ch.remoteWin.closed, true
+}
